@@ -3,6 +3,7 @@ use std::cell::{Cell, RefCell};
 use std::io::{self, Write};
 use std::panic::UnwindSafe;
 use std::process::abort;
+use std::sync::Mutex;
 use std::sync::atomic::{AtomicBool, Ordering};
 
 /// Describes the fallback behavior when
@@ -29,6 +30,7 @@ thread_local! {
     static PANIC_CATCHER_ENABLED: Cell<bool> = const { Cell::new(false) };
 }
 static PANIC_CATCHER_HOOK_SET: AtomicBool = AtomicBool::new(false);
+static PANIC_CATCHER_HOOK_LOCK: Mutex<()> = Mutex::new(());
 
 #[inline]
 fn panic_catcher_start_catching() -> bool {
@@ -131,6 +133,16 @@ fn record_backtrace(info: &std::panic::PanicHookInfo<'_>, bt: &mut String) {
 
 /// Registers panic catcher panic hook.
 pub fn panic_catcher_set_hook() {
+    if PANIC_CATCHER_HOOK_SET.load(Ordering::SeqCst) {
+        return;
+    }
+    // Taking the current hook and setting ours are two separate steps: a
+    // second installer running in between would take our hook out again and
+    // leave the default hook in place for a moment, so that panics caught by
+    // other threads in that window are not recorded. Serialize installers.
+    let _guard = PANIC_CATCHER_HOOK_LOCK
+        .lock()
+        .unwrap_or_else(|poisoned| poisoned.into_inner());
     if PANIC_CATCHER_HOOK_SET.load(Ordering::SeqCst) {
         return;
     }
